@@ -797,6 +797,28 @@ func (p c08) corrupt(ctx *core.RunCtx, g *c08Gen, e *c08Entry, v ser, data []byt
 	for j := 0; j < width; j++ {
 		bad[pos+j] = byte(val >> (8 * j))
 	}
+	// encodings that are text as a whole (parameter sets and literals): one number replaced by an extreme one
+	// (the length of the text changes with it)
+	if len(data) > 2 && (data[0] == '{' || data[0] == '[') && ch.Chance("corrupt-number", 1, 2) {
+		var starts []int
+		for i := 1; i < L; i++ {
+			if data[i] >= '0' && data[i] <= '9' && !(data[i-1] >= '0' && data[i-1] <= '9') && data[i-1] != '.' && data[i-1] != 'e' && data[i-1] != '-' && data[i-1] != '+' && data[i-1] != 'x' {
+				starts = append(starts, i)
+			}
+		}
+		if len(starts) > 0 {
+			st := starts[ch.Draw("corrupt-number-pos", len(starts))]
+			en := st
+			for en < L && (data[en] >= '0' && data[en] <= '9' || data[en] == '.' || data[en] == 'e' || data[en] == '+' || data[en] == '-' || data[en] == 'x' || data[en] >= 'a' && data[en] <= 'f') {
+				en++
+			}
+			nums := []string{"0", "1", "2", "63", "64", "65", "255", "256", "1023", "1024", "65536", "4294967296", "18446744073709551615", "18446744073709551616", "1e999", "-1", "0.5"}
+			rep := nums[ch.Draw("corrupt-number-val", len(nums))]
+			bad = append(append(append([]byte{}, data[:st]...), rep...), data[en:]...)
+			pos, width, val, textual = st, en-st, 0, true
+			ctx.Count("fault.number-replaced", 1)
+		}
+	}
 	if bytes.Equal(bad, data) {
 		return
 	}
